@@ -3,7 +3,7 @@
 bin/mutant_eval.py) into seeded/<id>/meta.json and print the table for DESIGN.md Appendix E."""
 import glob, json, os, re, sys
 VERIF = os.path.dirname(os.path.dirname(os.path.abspath(__file__)))
-logs = sorted(glob.glob(sys.argv[1] if len(sys.argv) > 1 else "/tmp/eval*.log")) + glob.glob("/tmp/confirm*.log")
+logs = sorted(glob.glob(sys.argv[1] if len(sys.argv) > 1 else "/tmp/eval*.log")) + glob.glob(os.path.join(VERIF, "seeded", "logs", "confirm*.log"))
 conf, res = {}, {}
 for lf in logs:
     cur = None
